@@ -4,7 +4,7 @@ import datetime as dt
 
 import numpy as np
 
-from .. import common, gen, sim, spec as S
+from .. import common, gen, instrument as I, sim, spec as S
 from . import base
 from .base import FX
 
@@ -88,6 +88,14 @@ def one(rng, crop, soil, method, i):
     elif r < 0.12:
         end = p0 + dt.timedelta(days=int(rng.integers(3, 60)))   # partial season, may end in planting year
         edge = "partial"
+    elif 0.17 <= r < 0.21 and span is None and not thermal:
+        # the window ends exactly on (or next to) the planting month/day of a leap year
+        ly = p0.year + int(rng.integers(1, 4))
+        while not (ly % 4 == 0 and (ly % 100 != 0 or ly % 400 == 0)):
+            ly += 1
+        pm, pd_ = [int(x) for x in c["planting"].split("/")]
+        end = dt.date(ly, pm, pd_) + dt.timedelta(days=int(gen.pick(rng, [0, 0, 0, -1, 1])))
+        edge = "end_on_planting_day_leap"
     elif r < 0.17 and span is None and not thermal and not c["kw"].get("SwitchGDD"):
         # default latest harvest date (planting + days to maturity + 30) that falls on/around
         # 29 February of a leap year
@@ -156,6 +164,19 @@ def cases(tier, seed):
         rng = gen.rng_for(seed, ID, i)
         sp, edge = one(rng, c, s, m, i)
         out.append({"spec": sp, "edge": edge})
+    # a window just under the documented limit of 580 years: only initialised (what is at stake is
+    # the rejection at initialisation; stepping 210 000 days would take minutes)
+    for j in range(2 if tier == "quick" else 6):
+        rng = gen.rng_for(seed, ID, 3 * 10 ** 6 + j)
+        y0 = int(gen.pick(rng, [1680, 1700, 1710]))
+        start = dt.date(y0, int(rng.integers(1, 7)), 1)
+        end = dt.date(y0 + 579, 12, int(rng.integers(20, 31))) if j % 2 == 0 else dt.date(y0 + 580, 1, int(rng.integers(2, 15)))
+        sp = {"start": gen.fmt(start), "end": gen.fmt(end), "off_season": False,
+              "weather": {"kind": "synth", "seed": int(rng.integers(0, 2 ** 31 - 1)), "regime": "temperate"},
+              "soil": {"type": "Loam", "kw": {}}, "crop": {"name": "Wheat", "planting": "10/15", "harvest": None, "kw": {}},
+              "iwc": {"wc_type": "Prop", "method": "Layer", "depth_layer": [1], "value": ["FC"]},
+              "irr": {"method": 0, "kw": {}, "schedule": None}, "co2": {"constant": 380.0}}
+        out.append({"spec": sp, "edge": "almost_580_years", "init_only": True})
     # rain-fed crops in dry climates, re-wetted on their harvest day (two passes, see run_case)
     nrw = base.n_cases(24, 240, tier)
     dry_crops = ["CottonGDD", "SoybeanGDD", "MaizeGDD", "SunflowerGDD", "SorghumGDD", "WheatGDD", "Cotton", "Maize", "Soybean", "TomatoGDD"]
@@ -233,6 +254,37 @@ def run_case(case):
     spec = case["spec"]
     acc = base.Acc(spec)
     cov = acc.cov
+    if case.get("init_only"):
+        # initialise only: a valid window must not be rejected
+        common.use_repo()
+        I.install()
+        I.watchdog_setup()
+        res = sim.RunResult()
+        res.trace = I.Trace()
+        try:
+            res.kw = S.build(spec)
+            m = S.make_model(spec, res.kw)
+            I.watchdog_arm(50_000_000)
+            with np.errstate(all="ignore"):
+                m._initialize()
+            cov["long_windows_initialised"] += 1
+        except I.HarnessTimeout:
+            raise
+        except Exception as ex:  # noqa: BLE001
+            res.exc = sim.exc_info(ex)
+            res.status = "error"
+            res.trace.phase = "init"
+            tname, msg, site, tb = res.exc
+            acc.add("undocumented-exception", f"{tname} @ {site[0]}.{site[1]}:{site[2]}: {msg[:120]} (window {spec['start']}..{spec['end']}, "
+                    "less than 580 years)", dict(exception=tname, message=msg[:300], site=list(site)),
+                    dict(features(spec, res), exception=tname, phase="init"), site=f"{site[0]}.{site[1]}")
+        finally:
+            I.watchdog_disarm()
+        out = base.finish(spec, res, acc, res.status == "ok", instruments=())
+        if acc.v:
+            out["status"] = "violated"
+        out["triple"] = None
+        return out
     res = sim.run(spec, opts=dict(ledger=False, irr=False))
     if case.get("rewater") and res.status == "ok" and res.summary is not None and len(res.summary):
         # second pass: the same rain-fed run, with a heavy irrigation on (and just before) every
